@@ -41,6 +41,7 @@ LabS(s, n) ==
     [] s.k = "switch" -> LET c == LabC(s.c, n) cs == LabCases(s.cases, c.n) IN
                      [v |-> [s EXCEPT !.c = c.v, !.cases = cs.v], n |-> cs.n]
     [] s.k = "block" -> LET b == LabB(s.body, n) IN [v |-> [s EXCEPT !.body = b.v], n |-> b.n]
+    [] s.k = "unsup" -> [v |-> [s EXCEPT !.id = n], n |-> n + 4]      \* four ids reserved for the parts of the construct
     [] s.k = "range" -> LET b == LabB(s.body, n + 1) IN [v |-> [s EXCEPT !.id = n, !.body = b.v], n |-> b.n]
     [] s.k = "for" -> LET i == LabSimple(s.init, n) c == LabC(s.c, i.n) p == LabSimple(s.post, c.n) b == LabB(s.body, p.n) IN
                      [v |-> [s EXCEPT !.init = i.v, !.c = c.v, !.post = p.v, !.body = b.v], n |-> b.n]
@@ -66,7 +67,7 @@ T0 == [k |-> "t", id |-> 0]
 Jumps(A, ctx) == (IF "retx" \in A.jumps THEN {[k |-> "retx", id |-> 0]} ELSE {}) \cup {[k |-> j] : j \in A.jumps \cap ({"return"} \cup (IF ctx # "top" THEN {"break"} ELSE {})
                                                            \cup (IF InLoop(ctx) THEN {"continue"} ELSE {}))}
 \* an infinite loop must make progress: its first body statement spends budget, yields or leaves
-Productive(c, body) == ~IsNone(c) \/ (body # <<>> /\ Head(body).k \in {"eff", "effx", "yield", "yfrom", "if", "switch", "break", "return", "retx", "panic"})
+Productive(c, body) == ~IsNone(c) \/ (body # <<>> /\ Head(body).k \in {"eff", "effx", "unsup", "yield", "yfrom", "if", "switch", "break", "return", "retx", "panic"})
 Case(g, body) == [g |-> g, body |-> body, ft |-> FALSE]
 Switch(init, form, cases) == [k |-> "switch", init |-> init, form |-> form, c |-> T0, cases |-> cases]
 
